@@ -126,8 +126,17 @@ theorem gen_softmax (n : Nat) (s g : Nat → K) (tau : K) (estBack : (Nat → K)
 
 theorem gen_encoder_axes :
     softmaxBackBroadcastsOverLevels = true ∧ softmaxFwdIsExpOverSumAlongLastAxis = true ∧
-    gumbelFwdIsSoftmaxOfLogitsPlusNoiseOverTau = true ∧ encoderBackExpandsLastAxis = true ∧
-    encoderFwdContractsLastAxis = true := by decide
+    encoderBackExpandsLastAxis = true := by decide
+
+/-- `GumbelSoftmax.forward` as translated hands the inner softmax `(x + noise) / tau` (noise = every local that does not depend
+on the logits), and `DiscreteEncoder.forward` as translated is the levels-weighted sum over the last axis -/
+theorem gen_gumbel_encoder_forward (tau : K) (x gam levels s : Nat → K) (n i : Nat) :
+    gumbelLogits tau x gam i = (x i + gam i) / tau ∧ encoderFwd n levels s = Model.C06.encoderFwd n levels s := by
+  constructor
+  · first | rfl | (simp only [gumbelLogits]; ring)
+  · first
+    | rfl
+    | (simp only [encoderFwd, Model.C06.encoderFwd, sumTo_eq]; exact Finset.sum_congr rfl fun k _ => by ring)
 
 /-- no backprop reads an attribute of `self` that the forward neither reads nor writes: parameters re-assigned on a live
 node (temperature annealing, slopes, offsets, level sets, DM geometry) reach forward and backprop alike -/
@@ -423,8 +432,11 @@ theorem softmax_shift_invariant (n : Nat) (x : Nat → ℝ) (c : ℝ) (i : Nat) 
 
 /-- Gumbel-softmax with temperature `τ ≠ 0` and any noise `γ`: derivative of `t ↦ ⟨g, softmax((x + tδ + γ)/τ)⟩` -/
 theorem gumbel_vjp (n : Nat) (tau : ℝ) (x δ g γ : Nat → ℝ) :
-    HasDerivAt (fun t : ℝ => ∑ i ∈ range n, g i * Model.C06.softmaxFwd Real.exp n (fun j => (x j + t * δ j + γ j) / tau) i)
-      (∑ j ∈ range n, gumbelBack tau n (Model.C06.softmaxFwd Real.exp n (fun j => (x j + γ j) / tau)) g j * δ j) 0 := by
+    HasDerivAt (fun t : ℝ => ∑ i ∈ range n, g i * Model.C06.softmaxFwd Real.exp n (gumbelLogits tau (fun j => x j + t * δ j) γ) i)
+      (∑ j ∈ range n, gumbelBack tau n (Model.C06.softmaxFwd Real.exp n (gumbelLogits tau x γ)) g j * δ j) 0 := by
+  have hl : ∀ (z : Nat → ℝ), gumbelLogits tau z γ = fun j => (z j + γ j) / tau :=
+    fun z => funext fun j => (gen_gumbel_encoder_forward tau z γ γ γ 0 j).1
+  simp only [hl]
   have h := softmax_vjp' n (fun j => (x j + γ j) / tau) (fun j => δ j / tau) g
   have hf : (fun t : ℝ => ∑ i ∈ range n, g i * Model.C06.softmaxFwd Real.exp n (fun j => (x j + t * δ j + γ j) / tau) i)
       = fun t : ℝ => ∑ i ∈ range n, g i * Model.C06.softmaxFwd Real.exp n (fun j => (x j + γ j) / tau + t * (δ j / tau)) i := by
